@@ -106,7 +106,7 @@ def header_nc(rel):
     return _hdr_cache[rel]
 
 
-def locate(rel, anchor, ordinal=0, count=None):
+def locate(rel, anchor, ordinal=0, count=None, body_match=None):
     """Find the function whose signature matches the regex `anchor` (matched on
     the comment-blanked header); `ordinal` picks among several matches that are
     followed by a body; `count` (optional) is the expected number of such matches."""
@@ -114,13 +114,34 @@ def locate(rel, anchor, ordinal=0, count=None):
     hits = []
     for m in re.finditer(anchor, nc):
         # after the anchor: find the parameter list's '(' (the anchor should end at or before it)
-        p = nc.find('(', m.start())
+        # the parameter list is the first '(' of the match whose ')' lies at/after the end of the match
+        # (anchors may start in the return type, e.g. to tell enable_if overloads apart)
+        p = q = -1
+        last_top = None
+        pos = m.start()
+        while pos < max(m.end(), m.start() + 1):
+            if nc[pos] == '(' and not mask[pos]:
+                try:
+                    qq = match_close(nc, mask, pos, '(', ')')
+                except Broken:
+                    break
+                last_top = (pos, qq)
+                if qq >= m.end() - 1:
+                    p, q = pos, qq
+                    break
+                pos = qq + 1
+            else:
+                pos += 1
+        if p < 0 and last_top:
+            p, q = last_top
         if p < 0:
-            continue
-        try:
-            q = match_close(nc, mask, p, '(', ')')
-        except Broken:
-            continue
+            p = nc.find('(', m.end())
+            if p < 0:
+                continue
+            try:
+                q = match_close(nc, mask, p, '(', ')')
+            except Broken:
+                continue
         # skip qualifiers up to '{' or ';'
         k = q + 1
         while k < len(nc) and nc[k] not in '{;':
@@ -130,6 +151,8 @@ def locate(rel, anchor, ordinal=0, count=None):
         if k >= len(nc) or nc[k] != '{':
             continue   # a declaration or a call, not a definition
         e = match_close(nc, mask, k, '{', '}')
+        if body_match and not re.search(body_match, nc[k:e + 1], flags=re.S):
+            continue
         hits.append((m.start(), k, e))
     if count is not None and len(hits) != count:
         raise Broken('anchor %r in %s: expected %d definitions, found %d' % (anchor, rel, count, len(hits)))
@@ -180,6 +203,7 @@ R1_COMMON = [
     (r'\bstd::size_t\b', 'size_t', 0, INF),
     (r'\bstd::u?int(8|16|32|64)_t\b', lambda m: m.group(0)[5:], 0, INF),
     (r'\bnullptr\b', '0', 0, INF),
+    (r'\bstatic\s+constexpr\b', 'const', 0, INF),
     (r'\bconstexpr\b', 'const', 0, INF),
     (r'\bnoexcept\b', '', 0, INF),
     (r'\bJSONCONS_FALLTHROUGH\s*;', '', 0, INF),
@@ -233,7 +257,7 @@ def splice_loops(body, loops, what):
         return body
     offs = find_loops(body)
     for o in loops:
-        if o >= len(offs):
+        if isinstance(o, int) and o >= len(offs):
             raise Broken('EXTRACTION-BROKEN %s: loop ordinal %d not found (%d loops)' % (what, o, len(offs)))
     exp = loops.get('count')
     out = body
@@ -267,14 +291,14 @@ class FuncSpec:
       loops     {ordinal: contract text, 'count': n}
       prologue  C text inserted at the start of the body (ghost only)
     """
-    def __init__(self, name, file, anchor, csig, ordinal=0, count=None, sig_check=None, contract=(),
+    def __init__(self, name, file, anchor, csig, ordinal=0, count=None, sig_check=None, body_match=None, contract=(),
                  aliases=None, rules=(), loops=None, prologue='', common=True, epilogue=''):
         self.__dict__.update(locals())
         del self.__dict__['self']
 
 
 def render_func(fs, info):
-    loc = locate(fs.file, fs.anchor, fs.ordinal, fs.count)
+    loc = locate(fs.file, fs.anchor, fs.ordinal, fs.count, fs.body_match)
     if fs.sig_check and not re.search(fs.sig_check, oneline(loc.sig)):
         raise Broken('EXTRACTION-BROKEN %s: signature %r does not match %r' % (fs.name, oneline(loc.sig), fs.sig_check))
     what = '%s (%s:%d)' % (fs.name, fs.file, loc.line_sig)
@@ -496,14 +520,14 @@ def classify(name, desc):
 TAG_RE = re.compile(r'\[(C\d\d)\]')
 
 
-def build_and_check(unit, h, ctext, info, outdir, nocache=False, trace_prop=None):
+def build_and_check(unit, h, ctext, info, outdir, nocache=False, trace_prop=None, extra_defines=()):
     """Compile, instrument, solve one harness.  Returns a result dict."""
     os.makedirs(outdir, exist_ok=True)
-    base = os.path.join(outdir, h.name)
+    base = os.path.join(outdir, h.name + ('.small' if extra_defines else ''))
     cfile = base + '.c'
     with open(cfile, 'w') as f:
         f.write(ctext)
-    defs = ['-DVX_CBMC', '-DVX_H_' + h.name.replace('-', '_')] + ['-D' + d for d in h.defines]
+    defs = ['-DVX_CBMC', '-DVX_H_' + h.name.replace('-', '_')] + ['-D' + d for d in list(h.defines) + list(extra_defines)]
     cc = ['goto-cc', '--function', h.entry] + defs + ['-I', os.path.join(VERIF, 'spec'), '-I', os.path.join(VERIF, 'model'),
                                                       cfile, '-o', base + '.gb']
     gi = ['goto-instrument']
